@@ -72,3 +72,19 @@ Theorem C15_tool_complement_judge_sound : forall rec mode r c infmt outfmt inb r
   TextModel.parse outfmt 0 outb = TextModel.TOk m n (complement_spec m n M (CliModel.opt_of r) (CliModel.opt_of c)).
 Proof. exact CliProofs.judge_clictu_sound. Qed.
 Print Assumptions C15_tool_complement_judge_sound.
+
+(* ---------- the judge accepts EXACTLY the records that satisfy its specification: besides soundness (above) also completeness,
+   i.e. a record of a correct answer is never rejected (JudgeComplete1.v) ---------- *)
+From Cmr Require JudgeComplete1.
+Theorem C15_judge_ctu_compl_accepts_exactly_the_specification :
+    forall (rec : list Z) (m n : nat) (M : mat) (r c : option nat) (rc : Z) (rest : list Z),
+    BaseProofs.ctu_compl_input rec = Some (m, n, M, r, c, rc, rest) ->
+    CtuModel.judge_ctu_compl rec = 0%Z <-> JudgeComplete1.ctu_compl_spec m n M r c rc rest.
+Proof. exact JudgeComplete1.judge_ctu_compl_iff. Qed.
+Print Assumptions C15_judge_ctu_compl_accepts_exactly_the_specification.
+Theorem C15_judge_ctu_test_accepts_exactly_the_specification :
+    forall (rec : list Z) (m n : nat) (M : mat) (rc : Z) (v : bool) (r c : option nat) (rest : list Z),
+    CtuProofs.ctu_test_input rec = Some (m, n, M, rc, v, r, c, rest) ->
+    CtuModel.judge_ctu_test rec = 0%Z <-> JudgeComplete1.ctu_test_spec m n M rc v r c.
+Proof. exact JudgeComplete1.judge_ctu_test_iff. Qed.
+Print Assumptions C15_judge_ctu_test_accepts_exactly_the_specification.
